@@ -315,6 +315,13 @@ class Composition(Bounded):
                         grouped = list(g.group_notes(stream, include_note_types=include, same_beat_notes=sb, join_heads_to_tails=join,
                                                      orphaned_head=oh, orphaned_tail=ot))
                         back = list(g.ungroup_notes(grouped, orphaned_notes=g.OrphanedNotes.KEEP_ORPHAN))
+                        if include is subsets[0] and sb == g.SameBeatNotes.KEEP_SEPARATE:
+                            # the lazy composition on a one-shot iterator: ungroup_notes(group_notes(iter(stream)))
+                            lazy = list(g.ungroup_notes(g.group_notes(iter(stream), include_note_types=include, same_beat_notes=sb, join_heads_to_tails=join,
+                                                                       orphaned_head=oh, orphaned_tail=ot), orphaned_notes=g.OrphanedNotes.KEEP_ORPHAN))
+                            if lazy != back:
+                                failures.append(dict(input=dict(stream=[repr(x) for x in stream], passed_as="iter(list), groups consumed lazily", join=join, heads=str(oh), tails=str(ot)),
+                                                     detail=f"came back as {lazy!r}; through lists it is {back!r}"))
                         # what group_notes emits has no note inside a joined hold on its column: the other two policies of
                         # ungroup_notes have nothing to raise about or to drop
                         for pol in (g.OrphanedNotes.RAISE_EXCEPTION, g.OrphanedNotes.DROP_ORPHAN):
